@@ -91,20 +91,25 @@ def main():
     if not res.get('confirmed'):
         return finish(res, name, patch, demo, ran, keep=False)
     # 2. run the checks against it
-    rc, out = sh('git -C %s status --porcelain --untracked-files=no' % REPO)
+    # SEED_PAR=<scratch worktree>:<scratch copy of /verif> runs the checks there (VERIF_REPO), so /repo stays untouched
+    crepo, croot, cenv = REPO, ROOT, ''
+    if os.environ.get('SEED_PAR'):
+        crepo, croot = os.environ['SEED_PAR'].split(':')
+        cenv = 'VERIF_REPO=%s ' % crepo
+    rc, out = sh('git -C %s status --porcelain --untracked-files=no' % crepo)
     if out.strip():
-        print('/repo has uncommitted changes; refusing')
+        print('%s has uncommitted changes; refusing' % crepo)
         return 2
     detected = {}
     try:
-        rc, out = sh('git -C %s apply %s' % (REPO, patch))
+        rc, out = sh('git -C %s apply %s' % (crepo, patch))
         if rc:
             print(out)
             return 2
         for p in [pid] + also:
             for tier in tiers:
                 t0 = time.time()
-                rc, out = sh('./check %s %s' % (p, tier), cwd=ROOT, timeout=4 * 3600)
+                rc, out = sh(cenv + './check %s %s' % (p, tier), cwd=croot, timeout=4 * 3600)
                 v = [l for l in out.splitlines() if l.startswith('VIOLATION')]
                 first = ''
                 for i, l in enumerate(out.splitlines()):
@@ -119,7 +124,7 @@ def main():
                 if rc == 1:
                     break
     finally:
-        sh('git -C %s checkout -- .' % REPO)
+        sh('git -C %s checkout -- .' % crepo)
     res['detected_by'] = detected
     res['caught'] = any(d['exit'] == 1 for d in detected.values())
     return finish(res, name, patch, demo, ran, keep=True)
